@@ -223,6 +223,12 @@ func otherDefault(s *Schema, fl *Field, r *hx.Rand) string {
 		}
 		return hx.Pick(r, c)
 	}
+	// mostly a NEAR value (max -> max-1, 2^53+1 -> 2^53, "abc" -> "ABC" ...), else any other one
+	if fl.Default != "" && r.Chance(2, 3) {
+		if d := nearDefault(r, fl.Type, fl.Default); d != "" {
+			return d
+		}
+	}
 	for i := 0; i < 20; i++ {
 		d := defaultLit(r, fl.Type)
 		if d != fl.Default {
